@@ -75,9 +75,10 @@ func init() {
 		Run: func(c *RuleCtx) {
 			rt := c.field("chunkPayloadData", "retransmit")
 			acked := c.field("chunkPayloadData", "acked")
-			// the give-up predicate: a method of the chunk that reads the abandoned flag and does NOT wait for all
-			// fragments to be in flight (abandoned() does, because only then can a FORWARD-TSN name the message; a
-			// retransmission decision that waits as well keeps retransmitting the fragments already sent — F30)
+			// the abandonment predicate: a method of the chunk that reads the abandoned flag. (For a while — F30 — it also
+			// had to be one that does not wait for all fragments to be in flight; that repair stalled the sender behind
+			// unacknowledgeable bytes and was reverted, see DESIGN §5a: the sent part of a given-up message is
+			// retransmitted until the whole message can be skipped.)
 			preds := giveUpPredicates(c)
 			abCond := func(v ssa.Value) CondPat {
 				return func(cond ssa.Value, taken bool) bool {
@@ -135,8 +136,8 @@ func init() {
 						okA, okB = false, false
 					}
 				}
-				c.Check(okA && okB, ks.key("rearm-guard@"+where), c.Pos(in), "dominated by !chunk.acked ∧ !chunk.givenUp() for the same chunk",
-					fmt.Sprintf("chunk can be re-armed although acked/abandoned (acked-guard=%v abandoned-guard=%v; the abandonment guard must be a predicate that does not wait for all fragments to be in flight)", okA, okB))
+				c.Check(okA && okB, ks.key("rearm-guard@"+where), c.Pos(in), "dominated by !chunk.acked ∧ !chunk.abandoned() for the same chunk",
+					fmt.Sprintf("chunk can be re-armed although acked/abandoned (acked-guard=%v abandoned-guard=%v)", okA, okB))
 			}
 			for _, a := range c.P.Writes(rt) {
 				if a.Kind != AccWrite || !IsConstBool(true)(a.Val) {
@@ -281,7 +282,7 @@ func init() {
 
 var ks6 = keyer{}
 
-// giveUpPredicates: methods of chunkPayloadData returning bool that read _abandoned and never _allInflight.
+// giveUpPredicates: methods of chunkPayloadData returning bool that read _abandoned.
 func giveUpPredicates(c *RuleCtx) []*ssa.Function {
 	fa, fi := c.field("chunkPayloadData", "_abandoned"), c.field("chunkPayloadData", "_allInflight")
 	var out []*ssa.Function
@@ -303,7 +304,8 @@ func giveUpPredicates(c *RuleCtx) []*ssa.Function {
 				}
 			}
 		})
-		if readsA && !readsI {
+		_ = readsI
+		if readsA {
 			out = append(out, fn)
 		}
 	}
